@@ -264,7 +264,88 @@ fn judge_fin(c: &Case, o: &Obs, fin: u32) -> Option<(String, serde_json::Value)>
   }
 }
 
+/// the subscriber's own handler panics while it is handed the terminal (user code); the panic is
+/// caught further up and the subscription is then unsubscribed (or its guard dropped by the
+/// unwinder): counted over the whole history the callback must have run exactly once.
+/// Local form only: with the thread-safe form the panic poisons the library's mutexes.
+fn panicking_subscriber_battery(rep: &mut Report) {
+  use rxrust::prelude::*;
+  use std::cell::Cell;
+  use std::rc::Rc;
+  struct Picky {
+    items: Rc<Cell<u32>>,
+  }
+  impl Observer<V, E> for Picky {
+    fn next(&mut self, _: V) {
+      self.items.set(self.items.get() + 1);
+    }
+    fn error(self, _: E) {
+      panic!("subscriber code fails while handling the error");
+    }
+    fn complete(self) {
+      panic!("subscriber code fails while handling the completion");
+    }
+    fn is_finished(&self) -> bool {
+      false
+    }
+  }
+  for by_error in [false, true] {
+    for guard in [false, true] {
+      for stacked in [false, true] {
+        rep.evaluations += 1;
+        rep.count("histories_with_a_subscriber_that_panics_on_the_terminal", 1);
+        let id = format!("panicking:{}:{}:{}", by_error, guard, stacked);
+        let runs = Rc::new(Cell::new(0u32));
+        let runs2 = Rc::new(Cell::new(0u32));
+        let items = Rc::new(Cell::new(0u32));
+        let mut subj = Subject::<'static, V, E>::default();
+        let (r1, r2) = (runs.clone(), runs2.clone());
+        let boxed: rxrust::ops::box_it::BoxOp<'static, V, E> = if stacked {
+          subj.clone().finalize(move || r2.set(r2.get() + 1)).finalize(move || r1.set(r1.get() + 1)).box_it()
+        } else {
+          r2.set(1);
+          subj.clone().finalize(move || r1.set(r1.get() + 1)).box_it()
+        };
+        let handle = boxed.actual_subscribe(Picky { items: items.clone() });
+        subj.next(V::I(1));
+        let s2 = subj.clone();
+        if guard {
+          // the guard lives in the scope the panic leaves: it is dropped by the unwinder
+          let _ = std::panic::catch_unwind(std::panic::AssertUnwindSafe(move || {
+            let _g = handle.unsubscribe_when_dropped();
+            if by_error {
+              s2.error(7)
+            } else {
+              s2.complete()
+            }
+          }));
+        } else {
+          // the panic is caught around the source's call; the program then unsubscribes
+          let _ = std::panic::catch_unwind(std::panic::AssertUnwindSafe(move || if by_error { s2.error(7) } else { s2.complete() }));
+          handle.unsubscribe();
+        }
+        rep.events += 3;
+        let (a, b) = (runs.get(), runs2.get());
+        if a != 1 || b != 1 {
+          rep.violation(
+            "callback_count",
+            "finalize[subscriber panics on the terminal]",
+            &id,
+            json!({"terminal": if by_error { "error" } else { "complete" }, "guard_dropped_by_the_unwinder": guard, "stacked": stacked,
+                   "callback_runs": a, "upper_callback_runs": if stacked { json!(b) } else { json!("n/a") }, "expected": 1}),
+          );
+        } else {
+          rep.nontrivial.insert(hash64(&id));
+        }
+      }
+    }
+  }
+}
+
 pub fn run(cfg: &Cfg, rep: &mut Report) {
+  if cfg.shard == 0 && cfg.only_case.as_deref().map_or(true, |c| c.starts_with("panicking:")) {
+    panicking_subscriber_battery(rep);
+  }
   let total = cfg.n(600_000, 30_000_000);
   let max_len = cfg.n(6, 10);
   let mut rng = Rng::new(cfg.seed ^ 0xC15);
